@@ -315,15 +315,12 @@ namespace CaddyModel.C20
     4 the first one end to end: `GET /h/x?token=T#%zz` through a provisioned server whose access log has a
       filter encoder with `request>uri` → query delete token
     5 the second one end to end: client `[fe80::1:2%eth0]:9`, `request>remote_ip` → ip_mask
-    6 cookie filter on a string field (passed through)                      hash_full_fails
-    7 a real HTTP/1.1 upstream sends `Set-Cookie` as an unannounced trailer: reverse_proxy stores it under
-      `Trailer:Set-Cookie`, which the access log does not redact             trailer_key_full_fails -/
+    6 cookie filter on a string field (passed through)                      hash_full_fails -/
 def witnessLines : List String := [
   "C20 flt query:d,746f6b656e,- 757269 s 2f613f746f6b656e3d303132333435363738396162636465663031323334353637383961626364656623257a7a U,2f613f746f6b656e3d303132333435363738396162636465663031323334353637383961626364656623257a7a",
   "C20 flt ipmask:16:32 72656d6f74655f6970 s 666538303a3a312565746830 T,666538303a3a312565746830,666538303a3a312565746830;S,666538303a3a312565746830;P,666538303a3a312565746830",
   "C20 flt hash 737461747573 o 0 .",
   "C20 site 1 0 d 0 ok 200 3139322e302e322e313a31323334 3f746f6b656e3d303132333435363738396162636465663031323334353637383961626364656623257a7a . . . . . . . 536572766572:4361646479",
   "C20 site 1 0 d 0 ok 200 5b666538303a3a313a3225657468305d3a39 - . . . . . . . 536572766572:4361646479",
-  "C20 flt cookie:d,736964,- 636f6f6b6965 s 7369643d3031323334353637383961626364656630313233343536373839616263646566 .",
-  "C20 site 0 0 d 0 rl 200 3139322e302e322e313a31323334 - . . . 547261696c65723a5365742d436f6f6b6965:7369643d30313233343536373839616263646566303132333435363738396162636465663b20506174683d2f . 557365722d4167656e74:-;566961:312e31204361646479;582d466f727761726465642d466f72:3139322e302e322e31;582d466f727761726465642d486f7374:612e74657374;582d466f727761726465642d50726f746f:68747470 436f6e74656e742d54797065:746578742f706c61696e 436f6e74656e742d54797065:746578742f706c61696e;547261696c65723a5365742d436f6f6b6965:7369643d30313233343536373839616263646566303132333435363738396162636465663b20506174683d2f;566961:312e31204361646479"]
+  "C20 flt cookie:d,736964,- 636f6f6b6965 s 7369643d3031323334353637383961626364656630313233343536373839616263646566 ."]
 end CaddyModel.C20
